@@ -97,6 +97,13 @@ Discord(p, R) ==
     LET on == OnPlane(p)
     IN \E v1 \in R \cap on : \E v2 \in on \ R : v1.h # v2.h /\ Adjacent(v1.t, v2.t)
 
+\* The replayed cell carries a vertex that was placed by the edge fall-back (its three planes are dependent): the code
+\* keeps such a vertex at the removed end point of the split edge, while the exact predicate - consulted for it in later
+\* undecided tests - speaks about the (ill-defined) intersection point of the snapped planes somewhere along that edge.
+\* What the code does with the cell afterwards is attributed to the residual of finding F2.
+HasFallbackVertex == \E v \in verts : ~IndependentAt(planes, v.t)
+Attr(reason) == IF HasFallbackVertex THEN "discord" ELSE reason
+
 TClip ==
     /\ IsEvent("clip")
     /\ l' = l + 1
@@ -116,7 +123,7 @@ TClip ==
        ELSE IF ~(\E s \in cmp : s >= 0) THEN Skip("clipped although the safety radius was already below the distance")
        ELSE IF Cardinality(R) # Len(Line.rem) \/ Cardinality(TriSet(Line.rem)) # Len(Line.rem)
             THEN Skip("removed vertices are not vertices of the cell")
-       ELSE IF ~(so \subseteq R /\ R \subseteq so \cup on) THEN Skip("removed set differs from the strictly clipped vertices (plus ties)")
+       ELSE IF ~(so \subseteq R /\ R \subseteq so \cup on) THEN Skip(Attr("removed set differs from the strictly clipped vertices (plus ties)"))
        ELSE IF R = {}
             THEN IF Len(Line.new) # 0 THEN Skip("vertices created although nothing was removed")
                  ELSE /\ visited' = visited \cup {q}
@@ -165,7 +172,15 @@ TClipFail ==
     /\ UNCHANGED <<inp, c, caseinfo, planes, verts, visited, pc, last, flags, nclips>>
     /\ IF mode # "run" THEN UNCHANGED <<mode, why>>
        ELSE /\ mode' = "skip"
-            /\ why' = "panic inside a clip"
+            /\ why' = LET q == CandOf(Line)
+                           p == CandPlane(q)
+                           R == RemovedOf(Line)
+                           pi == Len(planes) + 1
+                           ps2 == Append(planes, NgbDesc(q, p))
+                           dep == \E e \in BoundaryEdges(R) : ~IndependentAt(ps2, <<e[1], e[2], pi>>)
+                           \* tie decisions (taken on snapped coordinates) took part in the removed set of the failing clip
+                           tied == OnPlane(p) # {}
+                       IN IF q \in Cands /\ (HasFallbackVertex \/ Discord(p, R) \/ dep \/ tied) THEN "discord" ELSE "panic inside a clip"
 
 \* What the finished cell must look like.
 FinalChecks(ln) ==
@@ -182,7 +197,8 @@ FinalChecks(ln) ==
 TEnd ==
     /\ IsEvent("end")
     /\ l' = l + 1
-    /\ LET verdict == IF mode = "run" THEN FinalChecks(Line) ELSE why
+    /\ LET fc == FinalChecks(Line)
+           verdict == IF mode = "run" THEN (IF fc = "ok" THEN "ok" ELSE Attr(fc)) ELSE why
        IN PrintT(<<"VERDICT", ToJson([g |-> caseinfo.g, emb |-> caseinfo.emb, cell |-> Line.c, verdict |-> verdict,
                                        nclips |-> nclips, tie |-> flags.tie, line |-> l])>>)
     /\ mode' = "idle" /\ why' = "ok"
